@@ -259,6 +259,57 @@ func monModuleAccountRecipient(s *Stream, name string) {
 	}))
 }
 
+// monInvariantCheckPeriod: a node run with --inv-check-period asserts the registered invariants at the start of
+// EndBlock (crisis is the first end-blocker, before the burn), and every node asserts them at the end of InitGenesis.
+// Neither may halt because coins are waiting at the burn address: (a) a genesis that funds the burn address starts and
+// block 1 burns the coins, (b) in a block that carries a transfer to the burn address the invariants hold before
+// the end-blockers run.
+func monInvariantCheckPeriod(s *Stream) {
+	s.Emit("mon.c07.invariant-check-period", guard(func() string {
+		old := genesisExtraCoins
+		genesisExtraCoins = nil
+		defer func() { genesisExtraCoins = old }()
+		burnAddr := sdk.MustAccAddressFromBech32(burntypes.BurnAddress)
+		A := newAcct("A", []byte("inv-A"))
+		c, err := NewChain(memDB(), tmpHome(), []*Acct{A, {Name: "burn", Addr: burnAddr}}, 1000000, nil)
+		if err != nil {
+			return "fail #a-genesis-that-funds-the-burn-address-does-not-start " + strings.ReplaceAll(err.Error(), "\n", " ")[:min(100, len(err.Error()))]
+		}
+		t := c.Time.Add(5 * time.Second)
+		c.Begin(t)
+		sup0 := c.App.BankKeeper.GetSupply(c.DeliverCtx(), feeDenom).Amount
+		c.End()
+		ctx := c.DeliverCtx()
+		if left := c.App.BankKeeper.SpendableCoins(ctx, burnAddr); !left.IsZero() {
+			return "fail #burn-address-not-empty-after-block-1 " + left.String()
+		}
+		if got := sup0.Sub(c.App.BankKeeper.GetSupply(ctx, feeDenom).Amount); !got.Equal(sdk.NewInt(1000000)) {
+			return "fail #supply-did-not-shrink-by-the-genesis-allocation shrank=" + got.String()
+		}
+		c.Commit()
+		t = t.Add(5 * time.Second)
+		c.Begin(t)
+		if err := c.App.BankKeeper.SendCoins(c.DeliverCtx(), A.Addr, burnAddr, sdk.NewCoins(sdk.NewInt64Coin(feeDenom, 5))); err != nil {
+			return "pass #cannot-send " + err.Error()
+		}
+		failed := ""
+		func() {
+			defer func() {
+				if r := recover(); r != nil {
+					failed = fmt.Sprint(r)
+				}
+			}()
+			c.App.CrisisKeeper.AssertInvariants(c.DeliverCtx()) // what crisis.EndBlocker does every inv-check-period blocks
+		}()
+		if failed != "" {
+			return "fail #invariant-check-before-the-end-blockers-halts " + strings.ReplaceAll(failed, "\n", " ")[:min(100, len(failed))]
+		}
+		c.End()
+		c.Commit()
+		return "pass"
+	}))
+}
+
 func burnHistory(s *Stream, rng *rand.Rand, steps int, allowVest bool) {
 	e := newBurnEnv(s)
 	e.header()
@@ -298,6 +349,7 @@ func init() {
 		defer s.Close(dir, "burn")
 		monEndBlockMovers(s)
 		monModuleAccountRecipient(s, "mon.c07.module-account-recipient")
+		monInvariantCheckPeriod(s)
 		for h := 0; h < n; h++ {
 			burnHistory(s, rng, 10+rng.Intn(25), true)
 		}
